@@ -161,7 +161,44 @@ def oracle_case(case, out):
     return 1
 
 
+def percent_bound_sweep(out):
+    """EnforceChanges(minimum_percent=p) / AvoidChanges(max_edits_percent=p) on regions of every length 1..60, for every p
+    whose bound p*L/100 is an integer: exactly that many changes is on the bound (passes), one fewer / one more is not"""
+    import dnachisel as dc
+    n = 0
+    for L in range(1, 61):
+        seq = "A" * L
+        for p_ in range(1, 100):
+            if (p_ * L) % 100:
+                continue
+            need = p_ * L // 100
+            for kind, mk, ok_at, bad_at in (("change_min", lambda: dc.EnforceChanges(minimum_percent=p_), need, need - 1),
+                                            ("keep_edits", lambda: dc.AvoidChanges(max_edits_percent=p_), need, need + 1)):
+                try:
+                    spec = mk().initialized_on_problem(hard.Stub(seq), role="constraint")
+                    for d, want in ((ok_at, True), (bad_at, False)):
+                        if 0 <= d <= L:
+                            ev = spec.evaluate(hard.Stub("C" * d + "A" * (L - d)))
+                            n += 1
+                            if bool(ev.passes) != want:
+                                out.append(dict(kind="percent-bound:%s" % kind, input=dict(sequence=seq, percent=p_, changed=d),
+                                                detail="%d%% of %d positions = %d: with %d changed positions passes=%s" % (p_, L, need, d, ev.passes)))
+                except Exception as e:
+                    out.append(dict(kind="percent-bound-raised:%s" % kind, input=dict(sequence=seq, percent=p_), detail=repr(e)[:150]))
+    return n
+
+
 def search(ctx, budget, hints):
+    out0 = []
+    n0 = percent_bound_sweep(out0)
+    r = _search(ctx, budget, hints)
+    r["counterexamples"] = r["counterexamples"] + out0[:1]
+    r["evaluations"] += n0
+    r["hist"]["percent-bound-sweep"] = n0
+    return r
+
+
+def _search(ctx, budget, hints):
     rng = vlib.Rng(ctx.seed + 1010)
     out = []
     n = 0
@@ -179,5 +216,8 @@ def search(ctx, budget, hints):
 
 def replay(ctx, case):
     out = []
+    if str(case.get("kind", "")).startswith("percent-bound"):
+        percent_bound_sweep(out)
+        return any(c["input"] == case["input"] for c in out)
     oracle_case(case["input"], out)
     return bool(out)
